@@ -331,6 +331,14 @@ def c04_4(ctx):
     a, s1, b, s2, c, digits = _sep_class(ctx, info)
     seps = set(s1.get('chars', set()))
     ctx.fact('separators_admitted', sorted(seps))
+    # the statement's day-month-year strings use the separators - / . and space, in BOTH positions: a separator the regex does not admit is not
+    # disambiguated at all (dateutil's month-first reading is returned as it is, and the wrong-dialect string is no longer rejected)
+    ctx.count(2, 'module _dates: ambiguity')
+    for which, cls in (('first', s1), ('second', s2)):
+        lack = {'-', '/', '.', ' '} - set(cls.get('chars', set()))
+        if lack:
+            ctx.fail(ctx.repo.fn('_dates:uk2dt'), ctx.repo.module_value('_dates', 'ambiguity')[1], 'the %s separator class of the ambiguity regex lacks %s: day-month strings written with it are never swapped / rejected' % (which, sorted(lack)),
+                     witness="dt('05 03 2020') is 5 March in the uk dialect; dt('03 25 2020') must raise")
     n = 0
     for name, attr in (('uk2dt', 'day'), ('us2dt', 'month')):
         fn = ctx.repo.fn('_dates:%s' % name)
